@@ -62,7 +62,7 @@ CHECKS = [
           "Tie: PSplines.fit/predict in 1-D, 2-D, 3-D with independent n_segments/degree per dimension: "
           "beta_hat, y_hat, hat-matrix diagonal and predictions are verified as certificates against the MODEL's normal equations (Cox-de Boor "
           "basis, Kronecker rows, difference penalties) exactly in Q.",
-  "note": STD_NOTE + " Partial: polynomial reproduction is proved in 1-D for every degree below the penalty order (orders 1..3) and in 2-D for (sums of) products of such polynomials (Kronecker structure of design2/pens2); the 3-D case is monitored on the implementation, not proved. The solver's output is checked as a "
+  "note": STD_NOTE + " Polynomial reproduction is proved in 1-D for every degree below the penalty order (orders 1..3) and in 2-D / 3-D for (sums of) products of such polynomials (Kronecker structure of design2/pens2 and design3/pens3). The solver's output is checked as a "
           "certificate (residual), not recomputed; leverage certificates are exact for all observations in 1-D and for a sample in 2-D/3-D "
           "(all are compared with a NumPy reference)."},
  {"id": "C06",
